@@ -11,6 +11,7 @@ Abstract program (JSON-able):
         | ["cmp", op, e, e] | ["and", e, e] | ["or", e, e] | ["not", e] | ["neg", e] | ["pos", e]
         | ["cast", T, e] | ["call", f, [e..]] | ["deref", e] | ["addr", lv] | ["field", lv, name]
         | ["index", lv, e] | ["sizeof", T]
+  init := e | ["list", [init..]] (array) | ["named", [[field, init]..]] (struct)      (declarations only)
   stmt := ["decl", T, name, e|None] | ["assign", "="|"+="|"-="|"*="|"|="|"&=", lv, e] | ["if", c, [stmt..], [stmt..]|None]
         | ["while", c, [stmt..]] | ["for", stmt|None, c, stmt|None, [stmt..]] | ["switch", e, [[e|None, [stmt..]], ..]]
         | ["return", e|None] | ["callstmt", f, [e..]]
@@ -104,6 +105,10 @@ def rexpr(e, minparen=False, top=False):
         return f"{r(e[1])}[{rexpr(e[2], minparen, top=True)}]"
     if k == "sizeof":
         return f"sizeof({rtype(e[1])})"
+    if k == "list":
+        return "{" + ", ".join(rexpr(x, minparen, top=True) for x in e[1]) + "}"
+    if k == "named":
+        return "{" + ", ".join(f".{f} = {rexpr(x, minparen, top=True)}" for f, x in e[1]) + "}"
     raise ValueError(k)
 
 
@@ -600,6 +605,22 @@ def fam_memory(ib):
     add("globals-mixed", ["global", "mixed-type"], [A(V("g8"), B("+", V("g8"), a)), A(V("g64"), V("g8"), "+="), A(V("gi"), B("-", V("gi"), V("g8"))),
                                                     A(V("gu"), V("g8"), "*="), ["return", B("+", V("gi"), ["cast", "int", V("g64")])]],
         globals=[("byte", "g8", None), ("int64_t", "g64", None), ("int", "gi", None), ("uint64_t", "gu", None)])
+    add("array-local-init", ["array", "initialiser"], [["decl", ["arr", "int", 3], "v", ["list", [a, B("+", a, b), L(7)]]],
+                                                       ["decl", ["arr", "byte", 2], "w", ["list", [b, L(300)]]],
+                                                       ["return", B("+", B("*", ["index", V("v"), L(1)], ["index", V("w"), L(1)]), B("-", ["index", V("v"), L(2)], ["index", V("w"), L(0)]))]])
+    add("array-global-init", ["array", "global", "initialiser"], [A(["index", V("ga"), L(0)], ["index", V("gb"), L(3)], "+="), A(["index", V("gb"), L(1)], a),
+                                                                  ["return", B("+", ["index", V("ga"), L(2)], ["index", V("ga"), B("&", b, L(1))])]],
+        globals=[(["arr", "int", 3], "ga", ["list", [L(10), L(20), B("*", L(6), L(5))]]), (["arr", "byte", 4], "gb", ["list", [L(1), L(2), L(255), L(256 + 4)]])])
+    add("struct-global-init", ["struct", "global", "initialiser"], [A(["field", V("gs"), "x"], a, "+="), A(["field", V("gs"), "w"], ["field", V("gs"), "y"], "+="),
+                                                                    ["return", B("+", B("+", ["field", V("gs"), "x"], ["field", V("gs"), "w"]), ["field", V("gs"), "z"])]],
+        types=[("S2", ["struct", [["int", "x"], ["byte", "y"], ["int", "z"], ["byte", "w"]]])],
+        globals=[("S2", "gs", ["named", [["x", L(1000)], ["y", L(200)], ["z", B("-", L(3), L(10))], ["w", L(100)]]])])
+    add("struct-global", ["struct", "global"], [A(["field", V("gt"), "x"], a), A(["field", V("gt"), "z"], b), A(["field", V("gt"), "y"], B("+", a, L(1))), A(["field", V("gt"), "x"], ["field", V("gt"), "y"], "+="),
+                                                ["return", B("+", ["field", V("gt"), "x"], ["cast", "int", ["field", V("gt"), "z"]])]],
+        types=[("S", S)], globals=[("S", "gt", None)])
+    add("alias-type-names", ["mixed-type"], [["decl", f"int{ib}_t", "x", B("+", a, V("c"))], ["decl", "uint8_t", "y", B("+", V("d"), V("e"))],
+                                             A(V("g"), B("*", V("x"), V("y"))), ["return", B("-", V("x"), a)]],
+        params=[("int", "a"), ("int", "b"), (f"int{ib}_t", "c"), ("byte", "d"), ("uint8_t", "e")], globals=[(f"int{ib}_t", "g", None)])
     add("sizeof", ["sizeof"], [["return", B("+", B("+", B("*", ["sizeof", "int"], L(1000)), B("*", ["sizeof", "int64_t"], L(100))),
                                           B("+", B("*", ["sizeof", "byte"], L(10)), ["sizeof", "uint16_t"]))]])
     return P
@@ -935,8 +956,8 @@ def programs(tier, seed, ib=32):
         rest = [p for p in fixed if "matrix" not in p["feats"]]
         same = [p for p in matrix if "same-type" in p["feats"] and p["id"].split("-")[2].split(".")[0] in ("int", "byte", "int64_t", "uint16_t" if ib == 32 else "uint32_t")]
         mixed = [p for p in matrix if "mixed-type" in p["feats"]]
-        conv = [p for p in rest if p["feats"] and p["id"].split("-")[0] in ("cast", "implicit", "unary", "lit", "opassign")]
+        conv = [p for p in rest if p["id"].split("-")[0] == "opassign"]
         other = [p for p in rest if p not in conv]
-        sel = same + rnd.sample(mixed, min(len(mixed), 28)) + rnd.sample(conv, min(len(conv), 24)) + other
+        sel = same + rnd.sample(mixed, min(len(mixed), 28)) + rnd.sample(conv, min(len(conv), 12)) + other
         return sel + [random_program(seed, k, ib) for k in range(30)]
     return fixed + [random_program(seed, k, ib) for k in range(1200 if ib == 32 else 300)]
